@@ -36,6 +36,11 @@ class Contract:
     note: str = ""
     case_split: dict = field(default_factory=dict)  # param -> list of concrete values to enumerate
     dynamic_types: dict = field(default_factory=dict)
+    # relational lemma over TWO calls of the same function (e.g. injectivity of a key function):
+    # pair_ensures: [(name, fn(a, res_a, b, res_b))]; params listed in pair_shared are the same in both calls
+    pair_ensures: list = field(default_factory=list)
+    pair_shared: tuple = ()
+    name_prefix: str = ""
 
     @property
     def short(self):
